@@ -358,8 +358,13 @@ fn judge(text: &str, class: &str) -> (String, Option<(String, String)>) {
 fn files(ctx: &Ctx) -> Vec<ProofFile> {
     let mut fs = stonefile::native_proofs(ctx);
     if ctx.quick() {
-        // the smallest recursive file of this build, and the dynamic one if native
-        fs.retain(|p| (p.loaded.meta.layout == "recursive" && (!p.stone6 || p.name.ends_with("stone6_example_proof") || build_name() == "k160s6")) || p.loaded.meta.layout == "dynamic");
+        // k160s5: the smallest recursive file; b248s6: the dynamic file; others: the recursive file
+        let b = build_name();
+        fs.retain(|p| match b {
+            "b248s6" => p.loaded.meta.layout == "dynamic",
+            _ => p.loaded.meta.layout == "recursive",
+        });
+        fs.truncate(1);
     }
     fs
 }
